@@ -480,7 +480,7 @@ func buildInput(r *rand.Rand, kind, mut int, thorough bool) []byte {
 	case 16: // element sizes at the length-form boundaries, correct minimal header
 		sizes := []int{126, 127, 128, 129, 254, 255, 256, 257, 65535, 65536}
 		m := sizes[r.IntN(8)]
-		if r.IntN(6) == 0 {
+		if r.IntN(12) == 0 {
 			m = sizes[8+r.IntN(2)]
 		}
 		if thorough && r.IntN(400) == 0 {
